@@ -266,12 +266,26 @@ Section Chain.
         ++ map (cons k) (par_steps mws core rest)
     end.
 
+  Fixpoint run_steps (mws : list stage) (core : C -> M -> St -> res R * St) (n : nat) (k : cfg) : cfg :=
+    match n with
+    | O => k
+    | S n' => match step1 mws core k with Some k' => run_steps mws core n' k' | None => k end
+    end.
+
+  (** The innermost handler returns or panics (it is Go code: no fuel, no model error). *)
+  Definition returns_or_panics (core : C -> M -> St -> res R * St) : Prop :=
+    forall c m s, match fst (core c m s) with Ok _ => True | Panic => True | _ => False end.
+
   (** * Counting executions in a trace. *)
   Definition is_enter (j : nat) (e : event) : bool := match e with EvEnter i _ _ => Nat.eqb i j | _ => false end.
   Definition is_back (j : nat) (e : event) : bool := match e with EvBack i _ => Nat.eqb i j | _ => false end.
   Definition is_ret (j : nat) (e : event) : bool := match e with EvRet i _ => Nat.eqb i j | _ => false end.
   Definition is_core (e : event) : bool := match e with EvCore _ _ => true | _ => false end.
   Definition count (f : event -> bool) (t : list event) : nat := length (filter f t).
+  (** The event with which position [k] of a chain of [n] middlewares starts executing:
+      middleware [k] is entered, or, for [k = n], the innermost handler is invoked. *)
+  Definition starts (n k : nat) (e : event) : bool := if k <? n then is_enter k e else is_core e.
+  Definition product (l : list nat) : nat := fold_right Nat.mul 1 l.
 
   (** Every invocation of the middleware makes exactly [n] continuation calls, whatever
       it receives, reads or gets back; it does not panic. *)
@@ -305,6 +319,7 @@ Arguments enter {C M R St}. Arguments step1 {C M R St}. Arguments start {C M R S
 Arguments outcome_of {C M R St}. Arguments par_steps {C M R St}.
 Arguments is_enter {C M R}. Arguments is_back {C M R}. Arguments is_ret {C M R}. Arguments is_core {C M R}.
 Arguments count {C M R}.
+Arguments run_steps {C M R St}. Arguments returns_or_panics {C M R St}. Arguments starts {C M R}.
 Arguments calls_exactly {C M R St}. Arguments crash_free {C M R St}.
 
 (** * The wrappers around the server chains.  A continuation returns the Go pair
